@@ -33,9 +33,9 @@ RULE = ('(b) E3 breadth-first search over operation histories on the real Cachin
         '/ 8 (thorough), every step compared with io.BytesIO over the same octets driven by the same operations '
         '(positions compared relative to the last renumbering reported by the wrapper). States merged on (reference '
         'position, mark, raw wrapper cache contents and offsets). (a) E1: every corpus encoding (cover set all forms, '
-        'valid and damaged, + elements of 8191/8192/8193/20000 octets and deep/wide containers) presented as 8 '
+        'valid and damaged, + elements of 8191/8192/8193/20000 octets and deep/wide containers) presented as 11 '
         'substrate kinds {bytes, BytesIO, OctetString, Any, real file, BufferedReader over non-seekable raw, gzip file, '
-        'zip member, bare non-seekable stream} x {one-shot, streaming} x io.DEFAULT_BUFFER_SIZE in {2,3,5,16, default}: '
+        'zip member, bare non-seekable stream, unbuffered io.RawIOBase that cannot seek, unbuffered disk file} x {one-shot, streaming} x io.DEFAULT_BUFFER_SIZE in {2,3,5,16, default}: '
         'identical (abstract value shapes, remainder, error class). Distinct = digest of (bytes, kind, buffer size, mode) / '
         'BFS transition.')
 ASSUMPTIONS = [
@@ -221,6 +221,17 @@ def substrates(data, tmpdir):
         return fh, lambda: (fh.close(), z.close())
     yield 'zipmember', zp
     yield 'nonseekable', lambda: (RawNS(data), None)
+    # unbuffered raw streams (io.RawIOBase): one that cannot seek (socket.makefile('rb', buffering=0) /
+    # os.fdopen(pipe, 'rb', 0) alike) and an unbuffered disk file
+    yield 'rawio-nonseekable', lambda: (RawFile(data), None)
+
+    def rawfile():
+        p = os.path.join(tmpdir, 'r.bin')
+        with open(p, 'wb') as f:
+            f.write(data)
+        fh = open(p, 'rb', buffering=0)
+        return fh, fh.close
+    yield 'file-unbuffered', rawfile
 
 
 def observe(sub, spec, streaming_mode):
@@ -325,7 +336,7 @@ def one_input(name, T, data, tier, R, idx, tmpdir, old):
                                      # while inside the content of a definite-length constructed element
                                      'renumbering_inside_definite_constructed' if renumbering_inside_definite(data, buf, U.contains(T, lambda t: t[0] == 'CHOICE'))
                                      else 'no_renumbering_inside_definite_constructed',
-                                     'wrapped_kind' if kind in ('BufferedReader', 'nonseekable') else 'seekable_kind',
+                                     'wrapped_kind' if kind in ('BufferedReader', 'nonseekable', 'rawio-nonseekable') else 'seekable_kind',
                                      'streaming' if streaming_mode else 'oneshot', 'big' if not small else 'small',
                                      'variant:' + (name.split('/')[-1] if '/' in name else name)}
                             R.violation('kinds.differ', {'name': name, 'T': T, 'data': data if small else data[:64], 'len': len(data),
@@ -371,7 +382,7 @@ def offset_variant(name, T, data, spec, R, idx, tmpdir, old):
                             '%s positioned after a %d-octet header: %s' % (kind, len(HEADER), summarize(obs)),
                             'as from bytes: %s' % summarize(want), 'codec.streaming',
                             {'a', 'offset', 'kind:' + kind, 'streaming' if streaming_mode else 'oneshot',
-                             'wrapped_kind' if kind in ('BufferedReader', 'nonseekable') else 'seekable_kind'}, idx)
+                             'wrapped_kind' if kind in ('BufferedReader', 'nonseekable', 'rawio-nonseekable') else 'seekable_kind'}, idx)
             else:
                 R.features['a.offset:' + kind] += 1
 
